@@ -453,7 +453,11 @@ def impl_preds(n, v, rtol, atol, tol, real=False):
     from incomplete_cooperative.game_properties import is_monotone_decreasing, is_sam, is_superadditive
     from incomplete_cooperative.supermodularity_check import check_supermodularity
     g = real_game(n, v) if real else StubGame(n, v)
-    sa = bool(is_superadditive(g, rtol=float(rtol), atol=float(atol)))
+    try:
+        sa = bool(is_superadditive(g, rtol=float(rtol), atol=float(atol)))
+    except TypeError:
+        # the absolute tolerance is an optional extra of the signature, the statement only documents the relative one
+        sa = bool(is_superadditive(g, rtol=float(rtol))) if atol == 0 else None
     sa_default = bool(is_superadditive(g))
     mono = bool(is_monotone_decreasing(g))
     sam = bool(is_sam(g))
@@ -589,6 +593,10 @@ def run_predicates(ctx):
         rep = {"n": n, "values_by_coalition_id": [str(x) for x in v], "rtol": str(rtol), "atol": str(atol),
                "tolerance": str(tol), "source": src}
         bad = False
+        if impl["sa"] is None:          # no atol parameter: that setting cannot be asked
+            ctx.count("atol_setting_not_supported_by_signature", 1)
+            impl = dict(impl, sa=exp["sa"])
+            model = dict(model, sa=exp["sa"])
         for k in ("sa", "sa_default", "mono", "sam"):
             if impl[k] != exp[k]:
                 bad = True
@@ -659,6 +667,10 @@ def run_float_predicates(ctx):
                 base = games.sam_game(rng, n, "dyadic")
                 v, src = [float(x) * (1 + rng.uniform(-1e-3, 1e-3)) for x in base], "sam-float-noisy"
             if len(v) == 2 ** n:
+                # the tolerance is documented as RELATIVE: a third of the games is rescaled far below / above 1
+                sc = [1.0, 1.0, 1.0, 1e-9, 1e-12, 1e6][j % 6] if kind != 2 else [1.0, 1e-10][j % 2]
+                if sc != 1.0:
+                    v, src = [float(x) * sc for x in v], src + f" x{sc:g}"
                 gl.append((n, [Fraction(float(x)) for x in v], src))
     drt, dtol = Fraction(DEFAULT_RTOL), Fraction(DEFAULT_TOL)
     outs = common.run_driver_parallel([f"c18pred {n} {common.qtok(drt)} 0/1 {common.qtok(dtol)} " + " ".join(common.qtok(x) for x in v)
@@ -673,7 +685,7 @@ def run_float_predicates(ctx):
         model = {"sa": b[p[0][0]], "mono": b[p[1][0]], "sam": b[p[2][0]], "sm_none": p[3][0] == "none"}
         r = impl_preds(n, v, drt, 0, dtol)
         impl = {"sa": r["sa_default"], "mono": r["mono"], "sam": r["sam"], "sm_none": r["sm_default"] is None}
-        m = Fraction(1, 10 ** 12) * max(1, max(abs(x) for x in v))
+        m = Fraction(1, 10 ** 12) * max(abs(x) for x in v)
         lo = {"sa": sa_margin(n, v, drt, 0, -m), "mono": oracle_mono(n, v), "sm_none": supermod_margin(n, v, dtol, -m)}
         hi = {"sa": sa_margin(n, v, drt, 0, m), "mono": lo["mono"], "sm_none": supermod_margin(n, v, dtol, m)}
         lo["sam"], hi["sam"] = lo["sa"] and lo["mono"], hi["sa"] and hi["mono"]
